@@ -10,20 +10,27 @@ import (
 	"fmt"
 	"math/rand"
 	"os"
+	"sort"
 	"strings"
 	"time"
 
+	errorsmod "cosmossdk.io/errors"
 	sdkmath "cosmossdk.io/math"
 	storetypes "cosmossdk.io/store/types"
+	abci "github.com/cometbft/cometbft/abci/types"
+	cmtproto "github.com/cometbft/cometbft/proto/tendermint/types"
 	"github.com/cosmos/cosmos-sdk/client"
 	clienttx "github.com/cosmos/cosmos-sdk/client/tx"
+	cryptocodec "github.com/cosmos/cosmos-sdk/crypto/codec"
 	sdk "github.com/cosmos/cosmos-sdk/types"
 	sdkerrors "github.com/cosmos/cosmos-sdk/types/errors"
 	"github.com/cosmos/cosmos-sdk/types/tx/signing"
 	authsigning "github.com/cosmos/cosmos-sdk/x/auth/signing"
 	"github.com/cosmos/cosmos-sdk/x/authz"
+	banktypes "github.com/cosmos/cosmos-sdk/x/bank/types"
 	govtypes "github.com/cosmos/cosmos-sdk/x/gov/types"
 	govv1 "github.com/cosmos/cosmos-sdk/x/gov/types/v1"
+	slashingtypes "github.com/cosmos/cosmos-sdk/x/slashing/types"
 
 	"github.com/functionx/fx-core/v8/testutil/helpers"
 	fxtypes "github.com/functionx/fx-core/v8/types"
@@ -37,13 +44,20 @@ type txWorld struct {
 	out        *hx.Out
 	txc        client.TxConfig
 	alice, bob *helpers.Signer
+	more       []*helpers.Signer // further funded signers for whole blocks (one transaction per signer and block)
 	gov        string
 	keys       map[string]*storetypes.KVStoreKey
+	// stores a block WITHOUT transactions changes (begin / end blockers): learnt from real empty blocks
+	emptyBlockChanges map[string]bool
 }
 
 func newTxWorld(s *hx.Suite, out *hx.Out, gov string) *txWorld {
 	w := &txWorld{s: s, out: out, txc: s.App.GetTxConfig(), gov: gov, keys: s.App.GetKVStoreKey()}
 	w.alice, w.bob = s.AddTestSigner(100_000_000), s.AddTestSigner(1000)
+	for i := 0; i < 3; i++ {
+		w.more = append(w.more, s.AddTestSigner(10_000))
+	}
+	w.emptyBlockChanges = map[string]bool{}
 	return w
 }
 
@@ -90,6 +104,7 @@ func (w *txWorld) deliver(tx sdk.Tx) (err error, panicked string) {
 	res := hx.Try(func() error { _, _, err = w.s.App.SimDeliver(w.txc.TxEncoder(), tx); return nil })
 	if res != "ok" {
 		panicked = res
+		w.out.Count("deliver-panic:" + res)
 	}
 	return
 }
@@ -286,4 +301,168 @@ func (w *txWorld) propStream(rng *rand.Rand, cases []txCase, junk []cand, other 
 			}
 		}
 	}
+}
+
+// ---- whole blocks: several signed transactions in ONE block through the real FinalizeBlock (begin-blocker, every
+// transaction through runTx on the block's state, end-blocker) and Commit.  `blk` lines, compared with `blockRun` of
+// Model/C16Tx.lean (theorems block_needs_governance_key / block_effect_is_governance_txs).
+
+// finalize runs one block with the given transactions on the suite's pending block state and commits it (what
+// helpers.BaseSuite.Commit does for an empty block).
+func (w *txWorld) finalize(txs [][]byte) (*abci.ResponseFinalizeBlock, error) {
+	s := w.s
+	ctx := s.Ctx
+	commitInfo := abci.CommitInfo{Round: 1}
+	for _, val := range s.ValSet.Validators {
+		pk, err := cryptocodec.FromCmtPubKeyInterface(val.PubKey)
+		if err != nil {
+			return nil, err
+		}
+		commitInfo.Votes = append(commitInfo.Votes, abci.VoteInfo{Validator: abci.Validator{Address: pk.Address(), Power: val.VotingPower}, BlockIdFlag: cmtproto.BlockIDFlagCommit})
+		info := slashingtypes.NewValidatorSigningInfo(sdk.ConsAddress(pk.Address()), ctx.BlockHeight(), 0, time.Unix(0, 0), false, 0)
+		if err := s.App.SlashingKeeper.SetValidatorSigningInfo(ctx, sdk.ConsAddress(pk.Address()), info); err != nil {
+			return nil, err
+		}
+	}
+	h := ctx.BlockHeight()
+	res, err := s.App.FinalizeBlock(&abci.RequestFinalizeBlock{Height: h, Time: time.Now().UTC(), ProposerAddress: ctx.BlockHeader().ProposerAddress, DecidedLastCommit: commitInfo, Txs: txs})
+	if err != nil {
+		return nil, err
+	}
+	if _, err := s.App.Commit(); err != nil {
+		return nil, err
+	}
+	if _, err := s.App.ProcessProposal(&abci.RequestProcessProposal{Height: h + 1, Time: time.Now().UTC(), ProposerAddress: ctx.BlockHeader().ProposerAddress, ProposedLastCommit: commitInfo}); err != nil {
+		return nil, err
+	}
+	s.Ctx = s.App.GetContextForFinalizeBlock(nil)
+	return res, nil
+}
+
+func (w *txWorld) blockStream(rng *rand.Rand, cases []txCase, junk []cand, other string) {
+	out, app := w.out, w.s.App
+	// an empty block first: what the begin / end blockers change on their own
+	before := hx.DumpAll(w.s.Ctx, w.keys)
+	var ferr error
+	if res := hx.Try(func() error { _, ferr = w.finalize(nil); return nil }); res != "ok" || ferr != nil {
+		out.Violate("an empty block could not be finalized: " + fmt.Sprint(res, ferr))
+		return
+	}
+	for _, st := range hx.DiffDump(before, hx.DumpAll(w.s.Ctx, w.keys)) {
+		w.emptyBlockChanges[st] = true
+	}
+	signers := append([]*helpers.Signer{w.alice, w.bob}, w.more...)
+	rng.Shuffle(len(signers), func(i, j int) { signers[i], signers[j] = signers[j], signers[i] })
+	nTx := 2 + rng.Intn(len(signers)-1)
+	type one struct {
+		by    *helpers.Signer
+		m     sdk.Msg
+		tc    txCase
+		c     cand
+		seq0  uint64
+		rcpt  sdk.AccAddress
+		vbBad bool
+	}
+	var ones []one
+	var raw [][]byte
+	var words []string
+	for i := 0; i < nTx; i++ {
+		tc := cases[rng.Intn(len(cases))]
+		m := cloneMsg(tc.m)
+		if m == nil {
+			continue
+		}
+		by := signers[i]
+		me := by.AccAddress().String()
+		cs := []cand{{"signer", me}, {"signer", me}, {"signer-upper", strings.ToUpper(me)}, {"gov", w.gov}, {"GOV-upper", strings.ToUpper(w.gov)},
+			{"other-account", signers[(i+1)%len(signers)].AccAddress().String()}, {"module", other}, junk[rng.Intn(len(junk))], junk[len(junk)-1]}
+		c := cs[rng.Intn(len(cs))]
+		setAuthority(m, c.val)
+		o := one{by: by, m: m, tc: tc, c: c, seq0: w.seq(by.AccAddress())}
+		if v, ok := m.(sdk.HasValidateBasic); ok && v.ValidateBasic() != nil {
+			o.vbBad = true
+		}
+		msgs := []sdk.Msg{m}
+		if rng.Intn(2) == 0 { // a sibling message of the same signer BEFORE the privileged one: must not survive its failure
+			o.rcpt = helpers.GenAccAddress()
+			msgs = []sdk.Msg{banktypes.NewMsgSend(by.AccAddress(), o.rcpt, sdk.NewCoins(sdk.NewCoin(fxtypes.DefaultDenom, sdkmath.NewInt(7)))), m}
+		}
+		tx, err := w.signed(by, msgs...)
+		if err != nil {
+			continue // an authority no signer can be computed for: the transaction cannot even be built
+		}
+		bz, err := w.txc.TxEncoder()(tx)
+		if err != nil {
+			continue
+		}
+		pk := 0
+		if tc.payloadOk {
+			pk = 1
+		}
+		ones = append(ones, o)
+		raw = append(raw, bz)
+		words = append(words, fmt.Sprintf("t %s %s %s %d %s %d %s", msgKey(m), dash(hx.HexS(c.val)), hx.Hex(by.AccAddress()), pk, tc.chain, tc.govOk, tc.lists))
+	}
+	if len(ones) == 0 {
+		return
+	}
+	before = hx.DumpAll(w.s.Ctx, w.keys)
+	var res *abci.ResponseFinalizeBlock
+	if r := hx.Try(func() error { res, ferr = w.finalize(raw); return nil }); r != "ok" || ferr != nil || res == nil || len(res.TxResults) != len(ones) {
+		out.Violate("a block of transactions carrying privileged messages could not be finalized: " + fmt.Sprint(r, ferr))
+		return
+	}
+	changed := hx.DiffDump(before, hx.DumpAll(w.s.Ctx, w.keys))
+	_, sigCode, _ := errorsmod.ABCIInfo(govtypes.ErrInvalidSigner, false)
+	var obs []string
+	for i, o := range ones {
+		r := res.TxResults[i]
+		seq1 := w.seq(o.by.AccAddress())
+		ob := "past-guard"
+		switch {
+		case r.Code == 0:
+		case seq1 == o.seq0 && o.vbBad:
+			ob = "rejected:basic"
+		case seq1 == o.seq0:
+			ob = "rejected:ante"
+		case r.Codespace == govtypes.ErrInvalidSigner.Codespace() && r.Code == sigCode:
+			ob = "rejected:signer"
+		}
+		obs = append(obs, ob)
+		out.Count("blk:" + o.c.kind + ":" + ob)
+		out.Nontrivial("blk|" + msgKey(o.m) + "|" + o.c.kind + "|" + ob)
+		if r.Code == 0 {
+			out.Violate(fmt.Sprintf("privileged message %s took effect inside a block transaction signed by an ordinary account, authority kind=%s (%q)", msgKey(o.m), o.c.kind, o.c.val))
+		}
+		if seq1 > o.seq0+1 {
+			out.Violate("a signer's sequence number advanced by more than one for one transaction in a block")
+		}
+		if o.rcpt != nil {
+			if bal := app.BankKeeper.GetBalance(w.s.Ctx, o.rcpt, fxtypes.DefaultDenom); r.Code != 0 && !bal.IsZero() {
+				out.Violate(fmt.Sprintf("a transaction whose privileged message %s was refused (authority kind=%s) kept the effect of its sibling bank send (%s arrived)", msgKey(o.m), o.c.kind, bal))
+			}
+			out.Count("blk:with-sibling-send")
+		}
+	}
+	out.Emit("blk "+hx.HexS(w.gov)+" "+strings.Join(words, " "), strings.Join(obs, " "))
+	out.Count(fmt.Sprintf("blk:txs-per-block:%d", len(ones)))
+	// nothing but what an empty block changes, the fee payments (bank; collected fees are allocated by x/distribution),
+	// the sequence numbers (acc) and the gas accounting of the block (feemarket base fee)
+	allowed := map[string]bool{"acc": true, "bank": true, "distribution": true, "feemarket": true}
+	for _, st := range changed {
+		if !w.emptyBlockChanges[st] && !allowed[st] {
+			out.Violate(fmt.Sprintf("a block whose transactions with privileged messages were all refused changed stores beyond what an empty block, the fee payments, the sequence numbers and the gas accounting change: %v (empty block: %v)", changed, keysOf(w.emptyBlockChanges)))
+			break
+		}
+	}
+	out.Stats.Extra["stores_changed_by_empty_blocks"] = keysOf(w.emptyBlockChanges)
+}
+
+func keysOf(m map[string]bool) []string {
+	var ks []string
+	for k := range m {
+		ks = append(ks, k)
+	}
+	sort.Strings(ks)
+	return ks
 }
